@@ -133,6 +133,10 @@ class Context:
             # appear reserved in stablehlo or llvm, see
             # functional_algorithms#68
             ref_name_ = f"_{ref_name}_{counter}_"
+            if other is None:
+                # the prefixed name itself is never registered, so it
+                # being unused does not tell that ref_name_ is unused
+                other = self._ref_values.get(ref_name_)
             while other is not None:
                 other = self._ref_values.get(ref_name_)
                 if other is expr:
